@@ -289,6 +289,21 @@ def lib_cases(thorough, rng):
             out.append(('CPF', lambda: parser.CPF(terminal=True), cpf(items) + tail, 2 + 4 + 4 + dl + 4 + 2 + len(ucmm), 'CPF.item[0].length'))
             items = [(0x0000, 0, b''), (0x9999, 5 + dl, b'abcde')]
             out.append(('CPF', lambda: parser.CPF(terminal=True), cpf(items) + tail, 2 + 4 + 4 + 5 + dl, 'CPF.item[1].length'))
+    # the items with a dedicated parser (identity, communications service, legacy address): each is bounded by its own length field,
+    # whether it is the last thing in the input, followed by another item, or followed by foreign bytes
+    ident = (struct.pack('<H', 1) + struct.pack('>HHI', 2, 44818, 0x7F000001) + bytes(8) + struct.pack('<HHHBBHI', 1, 14, 54, 20, 11, 0x3160, 0x6C061A)
+             + b'\x05hello' + b'\xff')
+    comms = struct.pack('<HH', 1, 0x0120) + b'Communications\x00\x00'
+    legacy = struct.pack('<HH', 1, 0) + struct.pack('>HHI', 2, 44818, 0xC0A805FD) + bytes(8) + b'192.168.5.253\x00\x00\x00'
+    for tid, content in ((0x000C, ident), (0x0100, comms), (0x0001, legacy)):
+        for dl in (-3, -1, 0, 1, 2):
+            for tail in (b'', b'NEXT', b'\x00\x00\x00\x00'):
+                items = [(tid, len(content) + dl, content)]
+                out.append(('CPF', lambda: parser.CPF(terminal=True), cpf(items) + tail, 2 + 4 + len(content) + dl, 'CPF.item[0].length'))
+            items = [(tid, len(content) + dl, content), (0x9999, 3, b'xyz')]
+            out.append(('CPF', lambda: parser.CPF(terminal=True), cpf(items) + b'Z', 2 + 4 + len(content) + dl + 4 + 3, 'CPF.item[0].length'))
+            items = [(0x0000, 0, b''), (tid, len(content) + dl, content + b'pad'[:max(dl, 0)])]
+            out.append(('CPF', lambda: parser.CPF(terminal=True), cpf(items) + b'Z', 2 + 4 + 4 + len(content) + dl, 'CPF.item[1].length'))
     # every library machine under an outer fixed limit
     wraps = [('SSTRING', lambda: parser.SSTRING(), b'\x03abcZ'), ('STRING', lambda: parser.STRING(), b'\x03\x00abc\x00Z'),
              ('EPATH', lambda: parser.EPATH(), b'\x02\x20\x02\x24\x01Z'), ('EPATH_padded', lambda: parser.EPATH_padded(), b'\x02\x00\x20\x02\x24\x01Z'),
